@@ -122,6 +122,13 @@ def cases(tier, seed):
     hz.append(dict(src=mk(), dst=mk()))
   for k, f in enumerate(hz):
     add('horiz', k, 2.0, **f)
+  # history monitor: regridders between grids of the SAME layout (node counts, spacing) that differ
+  # only in the longitude offsets, built and applied one after the other in one process, both orders
+  A = [16, 8, 'gauss']
+  seq = [dict(src=A + [-np.pi], dst=A + [0.0]), dict(src=A + [0.0], dst=A + [0.0]),
+         dict(src=A + [0.4], dst=A + [-2.0]), dict(src=A + [-np.pi], dst=A + [-np.pi])]
+  add('horiz_siblings', 0, 5.0, pairs=seq)
+  add('horiz_siblings', 1, 5.0, pairs=seq[::-1])
   return out
 
 
@@ -857,5 +864,12 @@ def _run_horiz(case, M):
   M.sample({'source': case['src'], 'target': case['dst']})
 
 
+def _run_horiz_siblings(case, M):
+  for j, pr in enumerate(case['pairs']):
+    _run_horiz(dict(case, **pr), M)
+    M.cover('sibling_sequences', f"{case['id']}:{j}")
+
+
 def run(case, M):
-  {'1d': _run_1d, 'fields': _run_fields, 'semilag': _run_semilag, 'horiz': _run_horiz}[case['kind']](case, M)
+  {'1d': _run_1d, 'fields': _run_fields, 'semilag': _run_semilag, 'horiz': _run_horiz,
+   'horiz_siblings': _run_horiz_siblings}[case['kind']](case, M)
